@@ -264,6 +264,38 @@ stream_lastclock(struct stream *stream)
 	return stream->lastclock;
 }
 
+/* Returns the size of the event placed at the current offset, or -1 if
+ * the event doesn't fit in the stream. The event is read from the
+ * stream without trusting its size fields. */
+static int64_t
+event_size_at_offset(struct stream *stream)
+{
+	struct ovni_ev *ev = (struct ovni_ev *) &stream->buf[stream->offset];
+	int64_t avail = stream->size - stream->offset;
+	int64_t size = (int64_t) sizeof(ev->header);
+
+	/* The header must fit before we can read the flags */
+	if (avail < size)
+		return -1;
+
+	if (ev->header.flags & OVNI_EV_JUMBO) {
+		/* And the jumbo size before we read it */
+		size += (int64_t) sizeof(ev->payload.jumbo.size);
+		if (avail < size)
+			return -1;
+
+		size += (int64_t) ev->payload.jumbo.size;
+	} else {
+		size = (int64_t) ovni_ev_size(ev);
+	}
+
+	/* The size of an event is handled as an int */
+	if (size > avail || size > INT32_MAX)
+		return -1;
+
+	return size;
+}
+
 int
 stream_step(struct stream *stream)
 {
@@ -291,14 +323,14 @@ stream_step(struct stream *stream)
 		}
 	}
 
-	stream->cur_ev = (struct ovni_ev *) &stream->buf[stream->offset];
-
 	/* Ensure the event fits */
-	if (stream->offset + ovni_ev_size(stream->cur_ev) > stream->size) {
+	if (event_size_at_offset(stream) < 0) {
 		err("stream '%s' ends with incomplete event",
 				stream->relpath);
 		return -1;
 	}
+
+	stream->cur_ev = (struct ovni_ev *) &stream->buf[stream->offset];
 
 	int64_t clock = stream_evclock(stream, stream->cur_ev);
 
